@@ -235,6 +235,8 @@ def case_exact(ctx, c):
     LOG.install()
     name, npar, prefix = PROTOS[int(g.integers(len(PROTOS)))]
     m = int(g.integers(2, 25)); nchr = int(g.integers(1, 4))
+    if c % 40 == 7:
+        m = int(g.choice([4097, 8193, 9000, 12289]))      # beyond internal block sizes of a vectorised meiosis
     chrgrp = pop.chrom_layout(g, m, nchr)
     xo = pop.make_xoprob(g, chrgrp, ["mixed", "random", "half", "zero", "mixed"][int(g.integers(5))])
     if g.random() < 0.25:   # leading exact zeros followed by positive entries
